@@ -11,8 +11,8 @@ from . import prog_engine as pe
 from .c09 import finish
 
 KINDS = {
-    'C01': ['flat', 'flat', 'multi', 'nested'],
-    'C02': ['flat', 'multi', 'nested', 'nested', 'unsized', 'split', 'nestedx'],
+    'C01': ['flat', 'flat', 'multi', 'nested', 'tworoots'],
+    'C02': ['flat', 'multi', 'nested', 'nested', 'unsized', 'split', 'nestedx', 'tworoots'],
     'C04': ['overlap', 'overlap', 'flat', 'nested', 'overlap', 'nestedx'],
 }
 PREFIX = {'C01': ['C01_'], 'C02': ['C02_'], 'C04': ['C04_']}
